@@ -1,4 +1,4 @@
-import StamModel.Stamql
+import StamModel.StamqlC
 import StamModel.Driver.Tv
 open Stam
 namespace Driver
@@ -49,7 +49,8 @@ def isDatetimeLit (s : List Char) : Bool :=
 
 /-- Rust's `{:?}` of a string, for the characters the harness sends (backslash and quote escaped) -/
 def showStrDebug (s : List Char) : String :=
-  "\"" ++ String.ofList (s.flatMap (fun c => if c = '\\' then ['\\', '\\'] else if c = '"' then ['\\', '"'] else [c])) ++ "\""
+  "\"" ++ String.ofList (s.flatMap (fun c => if c = '\\' then ['\\', '\\'] else if c = '"' then ['\\', '"']
+    else if c = '\n' then ['\\', 'n'] else if c = '\t' then ['\\', 't'] else if c = '\r' then ['\\', 'r'] else [c])) ++ "\""
 
 partial def showOp : QL.Op → String
   | .any => "Any" | .null => "Null" | .tru => "True" | .fls => "False"
@@ -63,7 +64,25 @@ partial def showOp : QL.Op → String
   | .not o => s!"Not({showOp o})"
   | .or os => "Or([" ++ ", ".intercalate (os.map showOp) ++ "])"
 
-/-- `ql arg <hex>` / `ql type <hex> <quoted>` / `ql op <ophex> <valuehex> <quoted>` -/
+def showQual : QL.Qual → String | .normal => "N" | .metadata => "M"
+
+/-- canonical rendering of a constraint of the modelled kinds -/
+def showCn : QL.Cn → String
+  | .id s => s!"id {hexOf s}"
+  | .dataset s q => s!"dataset {hexOf s} {showQual q}"
+  | .datasetVar v q => s!"datasetvar {hexOf v} {showQual q}"
+  | .substore (some s) => s!"substore {hexOf s}"
+  | .substore none => "substore ~"
+  | .substoreVar v => s!"substorevar {hexOf v}"
+  | .text s nocase => s!"text {hexOf s} {if nocase then 1 else 0}"
+  | .textVar v => s!"textvar {hexOf v}"
+  | .regex s => s!"regex {hexOf s}"
+  | .dataKey set key q => s!"datakey {hexOf set} {hexOf key} {showQual q}"
+  | .keyValue set key o q => s!"keyvalue {hexOf set} {hexOf key} {showQual q} {showOp o}"
+  | .dataVar v q => s!"datavar {hexOf v} {showQual q}"
+  | .keyValueVar v o q => s!"keyvaluevar {hexOf v} {showQual q} {showOp o}"
+
+/-- `ql arg <hex>` / `ql type <hex> <quoted>` / `ql op <ophex> <valuehex> <quoted>` / `ql cn <hex>` -/
 def ql (args : List String) : String :=
   match args with
   | ["arg", h] =>
@@ -85,6 +104,16 @@ def ql (args : List String) : String :=
       | .err _ => "err"
       | .panic m => "panic:" ++ m
     | _, _ => "bad-op"
+  | ["cn", h, reok] =>
+    match unhex h with
+    | some s =>
+      match QL.parseCn parseIsize parseFloatLit isDatetimeLit (fun _ => reok = "1") s with
+      | .ok (c, r) =>
+        let printed := match QL.printCn (fun n => (toString n).toList) c with | some t => hexOf t | none => "~"
+        s!"ok | {showCn c} | {hexOf r} | {printed}"
+      | .err m => if m = "unmodelled" then "unmodelled" else "err"
+      | .panic m => "panic:" ++ m
+    | none => "bad-op"
   | _ => "bad-op"
 
 end Driver
